@@ -644,6 +644,27 @@ func (r *rxRunner) runFail(id int, ps []wPkg, cuts []int, off int, kind string, 
 		}
 		r.recv(pkg)
 	}
+	// the connection stays failed: whoever receives again is told so as well, within the same bound
+	// (a consumer that retries, the drain of NextPackageUntil, the consumer of another channel)
+	for i := 0; gotErr && i < 2; i++ {
+		start = time.Now()
+		ctx, cancel := context.WithTimeout(context.Background(), time.Duration(timeout+2)*time.Second)
+		pkg, err := r.ch.NextPackage(ctx, true)
+		cancel()
+		if err == nil {
+			r.recv(pkg)
+			continue
+		}
+		c := recvErrClass(err)
+		if c == "ctx" {
+			c = "late"
+			r.lates++
+		}
+		r.tr.Emit(Ev{"ev": "RecvErr", "class": c, "text": err.Error(), "ms": int(time.Since(start).Milliseconds()), "again": i + 1})
+		if c != "err" {
+			break
+		}
+	}
 	r.gotErr, r.complete = gotErr, complete
 	r.runEnd()
 	r.mc.Close()
